@@ -1090,3 +1090,10 @@ func Gosched() {
 		s.call(req{kind: kYield, n: 1})
 	}
 }
+
+// AG ("atomic gate") passes a scheduling point after an atomic operation that is part of an expression and hands
+// its result through.
+func AG[T any](v T) T {
+	Yield()
+	return v
+}
